@@ -143,7 +143,11 @@ func buildPack(pack v1.Package, img string, pkgMap map[string]string) error {
 		return errors.Wrap(err, errParsePackageName)
 	}
 	objName := xpkg.ToDNSLabel(ref.Context().RepositoryStr())
-	if existing, ok := pkgMap[ref.Context().RepositoryStr()]; ok {
+	// The map of existing packages is keyed by ParsePackageSourceFromReference
+	// (registry and repository), so look the requested package up the same
+	// way. Looking it up by repository alone never matched a reference that
+	// carries a registry host, and installed a second package.
+	if existing, ok := pkgMap[xpkg.ParsePackageSourceFromReference(ref)]; ok {
 		objName = existing
 	}
 	pack.SetName(objName)
